@@ -27,11 +27,14 @@ FILES = ['lib/Cases.v', 'C19_Model.v', 'C19_Proofs.v', 'C19_Properties.v']
 SIG_DP = 'ProfileBase.normalize/unnormalize:data_profile-first-read-order'
 SIG_NF = 'ProfileBase.normalize:non-finite-normalization'
 SIG_EE = 'CurveOfGrowth.calc_radius_at_ee:monotone-prefix-last-point'
+SIG_EEC = 'CurveOfGrowth.calc_ee_at_radius:not-the-current-profile'
+SIG_EEH = 'CurveOfGrowth.encircled-energy:depends-on-history'
 
-OPS_COG = ['nmax', 'nsum', 'un', 'rp', 're']
-OPS_RAD = OPS_COG + ['rd']
+OPS_BASE = ['nmax', 'nsum', 'un', 'rp', 're']
+OPS_COG = OPS_BASE + ['ee', 'ri']      # calls of calc_ee_at_radius / calc_radius_at_ee are reads too
+OPS_RAD = OPS_BASE + ['rd']
 COQ_OP = {'nmax': 'ONorm NMax', 'nsum': 'ONorm NSum', 'un': 'OUnnorm', 'rp': 'ORead AProf',
-          're': 'ORead APerr', 'rd': 'ORead ADp'}
+          're': 'ORead APerr', 'rd': 'ORead ADp', 'ee': 'OEe', 'ri': 'ORi'}
 
 
 # ----------------------------------------------------------------------------------------
@@ -65,7 +68,7 @@ def gen_spec(rng, lattice=True, small=False, kind=None):
     wx = rng.choice(['inside'] * 5 + ['near'] * 3 + ['off'] * 2 + ['far'])
     wy = rng.choice(['inside'] * 5 + ['near'] * 3 + ['off'] * 2) if wx != 'far' else 'inside'
     xc, yc = _coord(rng, nx, rmax, lattice, wx), _coord(rng, ny, rmax, lattice, wy)
-    dk = rng.choice(['const', 'nonneg', 'nonneg', 'signed', 'negtail', 'plateau'])
+    dk = rng.choice(['const', 'nonneg', 'nonneg', 'signed', 'negtail', 'plateau', 'compact', 'compact'])
     yy, xx = np.indices((ny, nx))
     rr = np.hypot(xx - xc, yy - yc)
     if dk == 'const':
@@ -79,12 +82,16 @@ def gen_spec(rng, lattice=True, small=False, kind=None):
         cut = rng.choice(radii)
         data = np.where(rr <= cut, float(rng.randint(1, 9)), -float(rng.randint(1, 4)))
         data = data + np.array([[float(rng.randint(0, 1)) for _ in range(nx)] for _ in range(ny)])
+    elif dk == 'compact':   # bright compact core, faint positive wings: strictly increasing curve with tiny steps
+        core = float(2 ** rng.randint(28, 34)) if lattice else rng.uniform(1e9, 1e12)
+        data = np.where(rr <= max(radii[0], 1.0), core * rng.randint(1, 3), 0.0)
+        data = data + np.array([[float(rng.randint(1, 3)) for _ in range(nx)] for _ in range(ny)])
     else:                   # plateau: zero outside a core (ties in the curve of growth)
         cut = rng.choice(radii)
         data = np.where(rr <= cut, float(rng.randint(1, 9)), 0.0)
     if not lattice:
         data = data + np.array([[rng.uniform(-0.5, 0.5) for _ in range(nx)] for _ in range(ny)]) * (dk != 'const')
-        if dk == 'nonneg':
+        if dk in ('nonneg', 'compact'):
             data = np.abs(data)
     error = None
     if rng.random() < 0.55:
@@ -110,8 +117,21 @@ def gen_spec(rng, lattice=True, small=False, kind=None):
         subpixels = rng.choice([1, 2, 4, 8]) if method == 'subpixel' else 5
     else:
         method, subpixels = 'exact', 5
+    # magnitudes: the same numbers in other units. Lattice: exact power of two 2^-80 .. 2^80 (the Coq
+    # model sees the unscaled integers and applies 2^k exactly); doubles: arbitrary unit factors
+    if lattice:
+        scale = rng.choice([0, 0, rng.randint(-80, 80), rng.randint(-80, -20), rng.randint(20, 80)])
+        factor = 2.0 ** scale
+    else:
+        factor = rng.choice([1.0, 1.0, 3e-17, 1e-12, 7e-6, 2.5e9, 4e20])
+        scale = None
+    if factor != 1.0:
+        data = data * factor
+        if error is not None:
+            error = error * factor
     return dict(kind=kind, data=data, error=error, mask=mask, xycen=(xc, yc), radii=radii, method=method,
-                subpixels=subpixels, dkind=dk, where=(wx, wy), mkind=mk, nonfinite=nonfinite, lattice=lattice)
+                subpixels=subpixels, dkind=dk, where=(wx, wy), mkind=mk, nonfinite=nonfinite, lattice=lattice,
+                scale=scale, factor=factor)
 
 
 def describe(spec, ops=None):
@@ -123,7 +143,7 @@ def describe(spec, ops=None):
     d = dict(kind=spec['kind'], data=arr(spec['data']), error=arr(spec['error']),
              mask=None if spec['mask'] is None else spec['mask'].astype(int).tolist(),
              xycen=[float(spec['xycen'][0]), float(spec['xycen'][1])], radii=[float(r) for r in spec['radii']],
-             method=spec['method'], subpixels=int(spec['subpixels']))
+             method=spec['method'], subpixels=int(spec['subpixels']), unit_factor=spec.get('factor', 1.0))
     if ops is not None:
         d['ops'] = list(ops)
     return d
@@ -203,10 +223,44 @@ def run_history(spec, ops):
                 got = fa(o.profile_error)
             elif op == 'rd':
                 got = fa(o.data_profile)
+            elif op == 'ee':
+                got = ee_read(o)
+            elif op == 'ri':
+                got = ri_read(o)
             trace.append((float(o.normalization_value), got))
         final = dict(nv=float(o.normalization_value), profile=fa(o.profile), profile_error=fa(o.profile_error),
                      data_profile=fa(o.data_profile) if spec['kind'] == 'radial' else None)
     return o, trace, final
+
+
+def ee_read(o):
+    """calc_ee_at_radius at every sampled radius and in between."""
+    rad = fa(o.radius)
+    mid = (rad[:-1] + rad[1:]) / 2
+    try:
+        return {'knots': fa(o.calc_ee_at_radius(rad)), 'mid': fa(o.calc_ee_at_radius(mid)), 'q': mid}
+    except ValueError:
+        return {'knots': None, 'mid': None, 'q': mid}
+
+
+def ri_read(o):
+    """calc_radius_at_ee at every profile value (classes) and in between, on the current profile."""
+    cls = ee_classes(o)
+    prof = fa(o.profile)
+    q = (prof[:-1] + prof[1:]) / 2
+    mid = None
+    if cls is not None and np.all(np.isfinite(q)):
+        try:
+            mid = fa(o.calc_radius_at_ee(q))
+        except ValueError:
+            mid = None
+    return {'cls': cls, 'prof': prof, 'mid': mid, 'q': q}
+
+
+def fresh_normalised(spec, ops):
+    """A fresh object brought to the same normalisation: only the normalize/unnormalize calls of `ops`."""
+    o, _, _ = run_history(spec, [op for op in ops if op in ('nmax', 'nsum', 'un')])
+    return o
 
 
 def aper_weights(spec):
@@ -345,7 +399,7 @@ def photometric_oracles(ctx, spec, raw, W):
         for i in range(len(prof)):
             if np.isfinite(area[i]) and area[i] > 0:
                 want = c if spec['kind'] == 'radial' else c * area[i]
-                if not (np.isfinite(prof[i]) and abs(prof[i] - want) <= 1e-9 * max(abs(want), 1e-300) + (0 if lat else 1e-12)):
+                if not (np.isfinite(prof[i]) and abs(prof[i] - want) <= 1e-9 * max(abs(want), 1e-300) + (0 if lat else 1e-12 * abs(c))):
                     bad.append((f'{spec["kind"]}:constant-image', f'constant {c}: bin {i} has profile {prof[i]} (area {area[i]})'))
                     break
     # non-negative data: non-decreasing curve of growth
@@ -412,6 +466,41 @@ def history_oracle(spec, raw, ops, trace, final):
             if not near(got, want):
                 bad.append((sig(names[op]), f'after {ops[:i + 1]}: {names[op]} = {got.tolist()[:8]} but fresh/{want_nv} = {want.tolist()[:8]}'))
                 return bad
+        if op == 'ee':
+            want = raw['profile'] / want_nv
+            if np.all(np.isfinite(want)):
+                if got['knots'] is None or not near(got['knots'], want):
+                    bad.append((SIG_EEC, f'after {ops[:i + 1]}: calc_ee_at_radius(radius) = '
+                                f'{None if got["knots"] is None else got["knots"].tolist()[:8]} but the current profile is '
+                                f'{want.tolist()[:8]}'))
+                    return bad
+                with warnings.catch_warnings():
+                    warnings.simplefilter('ignore')
+                    ref = fa(fresh_normalised(spec, ops[:i]).calc_ee_at_radius(got['q']))
+                if not near(got['mid'], ref):
+                    bad.append((SIG_EEH, f'after {ops[:i + 1]}: calc_ee_at_radius({got["q"].tolist()[:6]}) = '
+                                f'{got["mid"].tolist()[:6]} but a fresh object with the same normalisation gives {ref.tolist()[:6]}'))
+                    return bad
+        if op == 'ri':
+            prof = got['prof']
+            if np.all(np.isfinite(prof)) and mono_prefix(prof) >= 2:
+                k = mono_prefix(prof)
+                if got['cls'] is None or any(c != 1 for c in got['cls'][:k]):
+                    bad.append((SIG_EE, f'after {ops[:i + 1]}: profile {prof.tolist()[:8]} is strictly increasing up to index '
+                                f'{k - 1} but calc_radius_at_ee(profile[i]) -> '
+                                f'{"ValueError" if got["cls"] is None else got["cls"]} (1 = radius[i], 0 = NaN)'))
+                    return bad
+                with warnings.catch_warnings():
+                    warnings.simplefilter('ignore')
+                    try:
+                        ref = fa(fresh_normalised(spec, ops[:i]).calc_radius_at_ee(got['q']))
+                    except ValueError:
+                        ref = None
+                if got['mid'] is not None and (ref is None or not near(got['mid'], ref)):
+                    bad.append((SIG_EEH, f'after {ops[:i + 1]}: calc_radius_at_ee({got["q"].tolist()[:6]}) = '
+                                f'{got["mid"].tolist()[:6]} but a fresh object with the same normalisation gives '
+                                f'{None if ref is None else ref.tolist()[:6]}'))
+                    return bad
         if not nvbad and not ((np.isnan(nv) and np.isnan(want_nv)) or abs(nv - want_nv) <= 1e-9 * abs(want_nv)):
             nvbad.append((SIG_NF if allnan else 'ProfileBase.normalize:normalization_value',
                           f'after {ops[:i + 1]}: normalization_value = {nv}, expected {want_nv}'))
@@ -472,8 +561,16 @@ def ee_oracle(o):
 # Coq encoding
 # ----------------------------------------------------------------------------------------
 def qlit(x):
-    f = Fraction(float(x))
-    return Raw(f'(Qmake {coq(f.numerator)} {f.denominator})')
+    """A finite float as mantissa * 2^exponent (numerals stay short at any magnitude)."""
+    f = float(x)
+    if f == 0.0:
+        return Raw('(Q2 0 0)')
+    m, e = math.frexp(f)
+    mi, e = int(m * 2 ** 53), e - 53
+    while mi % 2 == 0:
+        mi //= 2
+        e += 1
+    return Raw(f'(Q2 {coq(mi)} {coq(e)})')
 
 
 def vlit(x):
@@ -497,16 +594,26 @@ def to_coq(spec, W, ops, raw, trace, final, ee):
                 return None
             apers.append(Raw('(AW ' + coq([int(v) for v in wi.ravel()]) + ')'))
     ny, nx = spec['data'].shape
-    tr = [(vlit(nv), None if got is None else Some([vlit(v) for v in got])) for nv, got in trace]
+    unit = 2.0 ** (-spec['scale'])
+
+    def obs(got):
+        if got is None:
+            return None
+        if isinstance(got, dict) and 'knots' in got:        # calc_ee_at_radius at the sampled radii; [] = raised
+            return Some([] if got['knots'] is None else [vlit(v) for v in got['knots']])
+        if isinstance(got, dict):                            # calc_radius_at_ee classes; [] = raised
+            return Some([] if got['cls'] is None else [Some(qlit(c)) for c in got['cls']])
+        return Some([vlit(v) for v in got])
+    tr = [(vlit(nv), obs(got)) for nv, got in trace]
     fin = (vlit(final['nv']), [vlit(v) for v in final['profile']], [vlit(v) for v in final['profile_error']],
            None if final['data_profile'] is None else Some([vlit(v) for v in final['data_profile']]))
     fields = [
-        ('k_S', S), ('k_ny', ny), ('k_nx', nx), ('k_data', ozarr(spec['data'])),
-        ('k_err', None if spec['error'] is None else Some(ozarr(spec['error']))),
+        ('k_S', S), ('k_ny', ny), ('k_nx', nx), ('k_data', ozarr(spec['data'] * unit)),
+        ('k_err', None if spec['error'] is None else Some(ozarr(spec['error'] * unit))),
         ('k_umask', None if spec['mask'] is None else Some([bool(v) for v in spec['mask'].ravel()])),
         ('k_apers', apers), ('k_radii', [qlit(r) for r in spec['radii']]),
         ('k_radial', spec['kind'] == 'radial'), ('k_xc', qlit(spec['xycen'][0])), ('k_yc', qlit(spec['xycen'][1])),
-        ('k_ops', [Raw(COQ_OP[o]) for o in ops]),
+        ('k_ops', [Raw(COQ_OP[o]) for o in ops]), ('k_scale', int(spec['scale'])),
         ('x_radius', [qlit(r) for r in raw['radius']]), ('x_area', [vlit(v) for v in raw['area']]),
         ('x_trace', tr), ('x_final', fin),
         ('x_ee', None if ee == 'skip' else Some(None if ee is None else Some([int(c) for c in ee]))),
@@ -576,6 +683,8 @@ def check_object(ctx, rep, spec, raw, W, tag):
     ctx.stat(tag + ':centre', '/'.join(spec['where']))
     ctx.stat(tag + ':data', spec['dkind'] + ('+nonfinite' if spec['nonfinite'] else ''))
     ctx.stat(tag + ':mask', spec['mkind'])
+    f = spec.get('factor', 1.0)
+    ctx.stat(tag + ':unit', '1' if f == 1.0 else ('<1e-15' if f < 1e-15 else '<1' if f < 1 else '>1e15' if f > 1e15 else '>1'))
     ctx.stat(tag + ':error', 'yes' if spec['error'] is not None else 'no')
     ctx.stat(tag + ':method', spec['method'] + (str(spec['subpixels']) if spec['method'] == 'subpixel' else ''))
     ctx.stat(tag + ':radii', ('from0' if spec['radii'][0] == 0 else 'positive') + f'/n={len(spec["radii"])}')
